@@ -1,5 +1,10 @@
 // C01 — Array / Stack / Queue as a sequence: explicit-state BFS over operation histories on the real
 // containers (several handles, clones, aliasing arguments) against std::vector.
+// Systems: array<T>   classic alphabet (deep BFS)
+//          arrayx<T>  reduced classic alphabet + pointer-range / initializer-list / comparator-sort / element-write forms
+//          nest       Array<Node> where Node holds an Array<Node>: arguments that live inside an element of the same array
+//          stackq<T>  Stack (two handles) and Queue
+//          sort<T>    every value sequence up to a length through sort(), sort(less), sortBy(key, asc/desc)
 #include <asl/Array.h>
 #include <asl/Stack.h>
 #include <asl/Queue.h>
@@ -37,8 +42,9 @@ template <class T> struct Tr;
 template <> struct Tr<int> { static int make(int v) { return v; } static int val(const int& x) { return x; } static const char* name() { return "int"; } enum { counted = 0, pod = 1 }; };
 template <> struct Tr<Tracked> { static Tracked make(int v) { return Tracked(v); } static int val(const Tracked& x) { return x.v == *x.payload ? x.v : -99; } static const char* name() { return "Tracked"; } enum { counted = 1, pod = 0 }; };
 template <> struct Tr<String> {
-	static String make(int v) { if (v == 0) return String(); String s("element-with-heap-payload-"); s += char('0' + v); return s; }
-	static int val(const String& x) { if (x.length() == 0) return 0; if (x.length() != 27 || !x.startsWith("element-with-heap-payload-")) return -99; return x[26] - '0'; }
+	// 0 = empty, 1 = short (stored inline in the String object), others = heap payload; String order = value order ("" < "e1" < "element-...2" < ...)
+	static String make(int v) { if (v == 0) return String(); if (v == 1) return String("e1"); String s("element-with-heap-payload-"); s += char('0' + v); return s; }
+	static int val(const String& x) { if (x.length() == 0) return 0; if (x.length() == 2) return x == "e1" ? 1 : -99; if (x.length() != 27 || !x.startsWith("element-with-heap-payload-")) return -99; return x[26] - '0'; }
 	static const char* name() { return "String"; }
 	enum { counted = 0, pod = 0 };
 };
@@ -46,12 +52,21 @@ template <> struct Tr<String> {
 // ---------------------------------------------------------------- operations
 enum Kind { K_NEW, K_NEWN, K_APPEND, K_INSERT, K_APPEND_ALIAS, K_INSERT_ALIAS, K_REMOVE, K_REMOVE2, K_REMOVELAST, K_REMOVEONE, K_REMOVEONE_ALIAS, K_REMOVEIF,
 	K_RESIZE, K_RESERVE, K_SORT, K_REVERSED, K_SLICE, K_APPEND_SELF, K_CONCAT_SELF, K_FILTER, K_MAP, K_DUP, K_SELFASSIGN, K_BIG,
-	K_CLONE, K_COPYH, K_ASSIGN, K_APPEND_OTHER, K_COPYFROM, K_CONCAT_EMPTY_TO, K_CONCAT_OTHER, K_SLICE_TO, K_FILTER_TO, K_DROP };
+	K_CLONE, K_COPYH, K_ASSIGN, K_APPEND_OTHER, K_COPYFROM, K_CONCAT_EMPTY_TO, K_CONCAT_OTHER, K_SLICE_TO, K_FILTER_TO, K_DROP,
+	// extended alphabet (system "arrayx" only)
+	K_NEWIL, K_APPEND_PTR_SELF, K_APPEND_PTR_OTHER, K_COPY_PTR_SELF, K_COPY_PTR_OTHER, K_NEW_FROM_PTR, K_NEW_FILL, K_APPEND_IL, K_ASSIGN_IL,
+	K_SORT_DESC, K_SORTBY, K_REMOVEONE_FROM, K_SET, K_REMOVE_N, K_SLICE_MID };
 struct Op { Kind k; int h, j, a; };
 enum { FRONT = 0, MID = 1, END = 2 };
 enum { R_DEC = 0, R_INC = 1, R_CAP = 2, R_CAP1 = 3, R_ZERO = 4 };
+enum { P_FIRST = 0, P_LAST = 1, P_ALL = 2 };
 
 static int W_GROW_MALLOC, W_GROW_REALLOC_RESERVE, W_GROW_INSERT, W_INSERT_SHIFT, W_SHARED_OP, W_ALIAS_OP, W_ALIAS_GROW, W_TWO_OBJECTS, W_CLONE_THEN_MUT, W_ELEMS_DESTROYED;
+static int W_CLEAR, W_ITER, W_SLICE_ENUM, W_INDEXOF_FROM, W_APTR_SELF, W_APTR_SELF_GROW, W_APTR_OTHER, W_CPTR_SELF, W_CPTR_OTHER_GROW, W_NEW_PTR, W_NEW_FILL, W_NEW_IL, W_APPEND_IL, W_ASSIGN_IL,
+	W_SORT_CMP, W_SORT_CMP_UNSORTED, W_SORTBY_DESC, W_RM1_FROM_FOUND, W_RM1_FROM_SKIPPED, W_RM1_NOTFOUND, W_SET_SHARED, W_SET_SRC_OF_CLONE, W_SET_CLONE_OF_SRC, W_REMOVE_N, W_SLICE_MID,
+	W_RMIF_NONE, W_RMIF_ALL, W_DUP_SHARED, W_DUP_UNSHARED,
+	W_SQ_SHARED_OP, W_SQ_PUSH_FULL, W_SQ_ALIAS_PUSH_FULL, W_SQ_PUSH_FULL_BIG, W_SQ_PUT_FULL, W_SQ_ALIAS_PUT_FULL, W_SQ_POP3, W_SQ_COPY,
+	W_NEST_ASSIGN_LASTREF, W_NEST_ASSIGN_GRAND, W_NEST_APPEND_KIDS_GROW, W_NEST_SHARED_KIDS, W_SORTX_UNSORTED;
 
 template <class T>
 struct ArrSys {
@@ -59,8 +74,10 @@ struct ArrSys {
 	std::vector<Op> ops;
 	Array<T>* is[NS];
 	std::shared_ptr<std::vector<int> > ms[NS];
-	bool allowBig;
-	ArrSys(bool big) : allowBig(big) {
+	bool allowBig, ext;
+	int nclassic, wRealloc;
+	std::weak_ptr<std::vector<int> > cloneSrc[NS]; // model object a slot was cloned from (witness only)
+	ArrSys(bool big, bool ext_ = false) : allowBig(big), ext(ext_), wRealloc(-1) {
 		for (int i = 0; i < NS; i++) is[i] = 0;
 		for (int h = 0; h < NS; h++) {
 			add(K_NEW, h); add(K_NEWN, h);
@@ -77,22 +94,48 @@ struct ArrSys {
 			add(K_DROP, h);
 			for (int j = 0; j < NS; j++) if (j != h) { add(K_CLONE, h, j); add(K_COPYH, h, j); add(K_ASSIGN, h, j); add(K_APPEND_OTHER, h, j); add(K_COPYFROM, h, j); add(K_CONCAT_EMPTY_TO, h, j); add(K_CONCAT_OTHER, h, j); add(K_SLICE_TO, h, j); add(K_FILTER_TO, h, j); }
 		}
+		nclassic = (int)ops.size(); // indices below are those of the classic alphabet: old case strings stay valid
+		for (int h = 0; h < NS; h++) {
+			add(K_NEWIL, h);
+			add(K_APPEND_PTR_SELF, h, 0, P_FIRST); add(K_APPEND_PTR_SELF, h, 0, P_LAST); add(K_APPEND_PTR_SELF, h, 0, P_ALL);
+			add(K_COPY_PTR_SELF, h, 0, 0); add(K_COPY_PTR_SELF, h, 0, 1);
+			add(K_APPEND_IL, h, 0, 0); add(K_APPEND_IL, h, 0, 1); add(K_ASSIGN_IL, h, 0, 0); add(K_ASSIGN_IL, h, 0, 1);
+			add(K_SORT_DESC, h); add(K_SORTBY, h, 0, 1); add(K_SORTBY, h, 0, 0);
+			add(K_REMOVEONE_FROM, h); add(K_SET, h); add(K_REMOVE_N, h, 0, 0); add(K_REMOVE_N, h, 0, 1); add(K_SLICE_MID, h, 0, 0); add(K_SLICE_MID, h, 0, 1);
+			for (int j = 0; j < NS; j++) if (j != h) { add(K_APPEND_PTR_OTHER, h, j); add(K_COPY_PTR_OTHER, h, j); add(K_NEW_FROM_PTR, h, j); add(K_NEW_FILL, h, j); }
+		}
 	}
+	// which ops belong to the alphabet of this system
+	bool inAlphabet(int op) {
+		if (op >= nclassic) return ext;
+		if (!ext) return true;
+		const Op& o = ops[op];
+		switch (o.k) {
+		case K_NEW: case K_NEWN: case K_APPEND: case K_DROP: case K_CLONE: case K_COPYH: case K_BIG: case K_DUP: return true;
+		case K_INSERT: case K_REMOVE: return o.a == FRONT;
+		case K_RESIZE: return o.a == R_DEC || o.a == R_CAP || o.a == R_ZERO;
+		default: return false;
+		}
+	}
+	int alphabet() { int c = 0; for (int i = 0; i < nops(); i++) if (inAlphabet(i)) c++; return c; }
 	void add(Kind k, int h, int j = 0, int a = 0) { Op o = { k, h, j, a }; ops.push_back(o); }
 	int nops() { return (int)ops.size(); }
 	void reset() {
-		for (int i = 0; i < NS; i++) { delete is[i]; is[i] = 0; ms[i].reset(); }
+		for (int i = 0; i < NS; i++) { delete is[i]; is[i] = 0; ms[i].reset(); cloneSrc[i].reset(); }
 		reg.reset();
 	}
 	int lowestFree() { for (int i = 0; i < NS; i++) if (!ms[i]) return i; return -1; }
 	int n(int h) { return (int)ms[h]->size(); }
 	bool canGrow(int h, int by = 1) { int x = n(h); return x + by <= MAXN || (allowBig && x >= 90 && x + by <= 93) || (allowBig && x >= 600 && x + by <= 603); }
 	bool enabled(int op) {
+		if (!inAlphabet(op)) return false;
 		const Op& o = ops[op];
 		bool live = (bool)ms[o.h];
 		switch (o.k) {
-		case K_NEW: case K_NEWN: return !live && lowestFree() == o.h; // symmetry: always fill the lowest free slot
+		case K_NEW: case K_NEWN: case K_NEWIL: return !live && lowestFree() == o.h; // symmetry: always fill the lowest free slot
 		case K_CLONE: case K_COPYH: case K_CONCAT_EMPTY_TO: case K_SLICE_TO: case K_FILTER_TO: return live && !ms[o.j] && lowestFree() == o.j && (o.k == K_CLONE || o.k == K_COPYH || n(o.h) < 50);
+		case K_NEW_FROM_PTR: return live && !ms[o.j] && lowestFree() == o.j && n(o.h) < 50;
+		case K_NEW_FILL: return live && !ms[o.j] && lowestFree() == o.j && n(o.h) >= 1 && n(o.h) < 50;
 		default: break;
 		}
 		if (!live) return false;
@@ -126,6 +169,16 @@ struct ArrSys {
 		case K_COPYFROM: return ms[o.j] && n(o.j) < 50;
 		case K_CONCAT_OTHER: return ms[o.j] && N < 50 && n(o.j) < 50 && N + n(o.j) <= MAXN;
 		case K_DROP: return true;
+		case K_APPEND_PTR_SELF: return o.a == P_FIRST ? N >= 1 && canGrow(o.h) : o.a == P_LAST ? N >= 2 && canGrow(o.h) : N >= 1 && canGrow(o.h, N);
+		case K_APPEND_PTR_OTHER: return ms[o.j] && n(o.j) >= 1 && n(o.j) < 50 && canGrow(o.h, n(o.j));
+		case K_COPY_PTR_SELF: return N >= 2 && N < 50;
+		case K_COPY_PTR_OTHER: return ms[o.j] && n(o.j) < 50;
+		case K_APPEND_IL: return canGrow(o.h, 2) && (o.a == 0 || N >= 1);
+		case K_ASSIGN_IL: return N < 50 && (o.a == 0 || N >= 1);
+		case K_SORT_DESC: case K_SORTBY: case K_REMOVEONE_FROM: return N >= 2 && N < 50;
+		case K_SET: return N >= 1 && N < 50;
+		case K_REMOVE_N: return N < 50 && (o.a == 1 || N >= 3);
+		case K_SLICE_MID: return N < 50 && (o.a == 0 ? N >= 2 : N >= 1);
 		default: return false;
 		}
 	}
@@ -141,6 +194,11 @@ struct ArrSys {
 		case K_BIG: return o.a;
 		case K_APPEND_OTHER: return N + n(o.j);
 		case K_COPYFROM: return n(o.j);
+		case K_APPEND_PTR_SELF: return o.a == P_ALL ? 2 * N : N + 1;
+		case K_APPEND_PTR_OTHER: return N + n(o.j);
+		case K_COPY_PTR_OTHER: return n(o.j);
+		case K_APPEND_IL: return N + 2;
+		case K_ASSIGN_IL: return 2;
 		default: return 0;
 		}
 	}
@@ -168,7 +226,7 @@ struct ArrSys {
 		case K_REMOVEONE: return fmt("h%d.removeOne(1)", o.h);
 		case K_REMOVEONE_ALIAS: return fmt("h%d.removeOne(h%d[n-1])", o.h, o.h);
 		case K_REMOVEIF: return fmt("h%d.removeIf(x==2)", o.h);
-		case K_RESIZE: return fmt("h%d.resize(%s)", o.h, R[o.a]);
+		case K_RESIZE: return o.a == R_ZERO ? fmt("h%d.clear()", o.h) : fmt("h%d.resize(%s)", o.h, R[o.a]);
 		case K_RESERVE: return fmt("h%d.reserve(cap+1)", o.h);
 		case K_SORT: return fmt("h%d.sort()", o.h);
 		case K_REVERSED: return fmt("h%d = h%d.reversed()", o.h, o.h);
@@ -190,12 +248,30 @@ struct ArrSys {
 		case K_SLICE_TO: return fmt("h%d = h%d.slice(0)", o.j, o.h);
 		case K_FILTER_TO: return fmt("h%d = h%d.filter(x!=2)", o.j, o.h);
 		case K_DROP: return fmt("drop h%d", o.h);
+		case K_NEWIL: return fmt("h%d = Array{3,1,2}", o.h);
+		case K_APPEND_PTR_SELF: return o.a == P_FIRST ? fmt("h%d.append(h%d.data(), 1)", o.h, o.h) : o.a == P_LAST ? fmt("h%d.append(h%d.data()+n-1, 1)", o.h, o.h) : fmt("h%d.append(h%d.data(), n)", o.h, o.h);
+		case K_APPEND_PTR_OTHER: return fmt("h%d.append(h%d.data(), h%d.length())", o.h, o.j, o.j);
+		case K_COPY_PTR_SELF: return o.a == 0 ? fmt("h%d.copy(h%d.data()+1, n-1)", o.h, o.h) : fmt("h%d.copy(h%d.data(), n-1)", o.h, o.h);
+		case K_COPY_PTR_OTHER: return fmt("h%d.copy(h%d.data(), h%d.length())", o.h, o.j, o.j);
+		case K_NEW_FROM_PTR: return fmt("h%d = Array(h%d.data(), n)", o.j, o.h);
+		case K_NEW_FILL: return fmt("h%d = Array(2, h%d[0])", o.j, o.h);
+		case K_APPEND_IL: return o.a == 0 ? fmt("h%d.append({1, 2})", o.h) : fmt("h%d.append({h%d[0], h%d[n-1]})", o.h, o.h, o.h);
+		case K_ASSIGN_IL: return o.a == 0 ? fmt("h%d = {2, 1}", o.h) : fmt("h%d = {h%d[n-1], h%d[0]}", o.h, o.h, o.h);
+		case K_SORT_DESC: return fmt("h%d.sort(a>b)", o.h);
+		case K_SORTBY: return fmt("h%d.sortBy(value, %s)", o.h, o.a ? "ascending" : "descending");
+		case K_REMOVEONE_FROM: return fmt("h%d.removeOne(1, 1)", o.h);
+		case K_SET: return fmt("h%d[n/2] = 1", o.h);
+		case K_REMOVE_N: return o.a == 0 ? fmt("h%d.remove(1, 2)", o.h) : fmt("h%d.remove(0, 0)", o.h);
+		case K_SLICE_MID: return o.a == 0 ? fmt("h%d = h%d.slice(1, n-1)", o.h, o.h) : fmt("h%d = h%d.slice(n)", o.h, o.h);
 		}
 		return "?";
 	}
 	static bool is2(const T& x) { return Tr<T>::val(x) == 2; }
 	static bool not2(const T& x) { return Tr<T>::val(x) != 2; }
 	static T inc(const T& x) { return Tr<T>::make((Tr<T>::val(x) + 1) % 4); }
+	static int keyOf(const T& x) { return Tr<T>::val(x); }
+	struct DescLess { bool operator()(const T& a, const T& b) const { return Tr<T>::val(b) < Tr<T>::val(a); } };
+	static bool sortedAsc(const std::vector<int>& m) { for (size_t i = 1; i < m.size(); i++) if (m[i] < m[i - 1]) return false; return true; }
 	void fillNew(Array<T>& a, int from) { if (Tr<T>::pod) for (int i = from; i < a.length(); i++) a[i] = Tr<T>::make(0); }
 	bool apply(int op, std::string& err) {
 		const Op& o = ops[op];
@@ -215,10 +291,13 @@ struct ArrSys {
 		case K_REMOVE: { int i = o.a == FRONT ? 0 : o.a == MID ? N / 2 : N - 1; A->remove(i); M->erase(M->begin() + i); vf::add(W_ELEMS_DESTROYED); break; }
 		case K_REMOVE2: A->remove(0, 2); M->erase(M->begin(), M->begin() + 2); break;
 		case K_REMOVELAST: A->removeLast(); if (N) M->pop_back(); break;
-		case K_REMOVEONE: { bool r = A->removeOne(Tr<T>::make(1)); std::vector<int>::iterator it = std::find(M->begin(), M->end(), 1); bool e = it != M->end(); if (e) M->erase(it); if (r != e) { err = "removeOne return value"; return false; } break; }
+		case K_REMOVEONE: { bool r = A->removeOne(Tr<T>::make(1)); std::vector<int>::iterator it = std::find(M->begin(), M->end(), 1); bool e = it != M->end(); if (e) M->erase(it); else vf::add(W_RM1_NOTFOUND); if (r != e) { err = "removeOne return value"; return false; } break; }
 		case K_REMOVEONE_ALIAS: { vf::add(W_ALIAS_OP); bool r = A->removeOne((*A)[N - 1]); std::vector<int>::iterator it = std::find(M->begin(), M->end(), (*M)[N - 1]); M->erase(it); if (!r) { err = "removeOne(a[n-1]) returned false"; return false; } break; }
-		case K_REMOVEIF: A->removeIf(is2); M->erase(std::remove(M->begin(), M->end(), 2), M->end()); break;
-		case K_RESIZE: { int m = o.a == R_DEC ? N - 1 : o.a == R_INC ? N + 1 : o.a == R_CAP ? capBefore : o.a == R_CAP1 ? capBefore + 1 : 0; A->resize(m); fillNew(*A, N); M->resize(m, 0); break; }
+		case K_REMOVEIF: A->removeIf(is2); M->erase(std::remove(M->begin(), M->end(), 2), M->end()); if ((int)M->size() == N) vf::add(W_RMIF_NONE); else if (M->empty()) vf::add(W_RMIF_ALL); break;
+		case K_RESIZE: {
+			int m = o.a == R_DEC ? N - 1 : o.a == R_INC ? N + 1 : o.a == R_CAP ? capBefore : o.a == R_CAP1 ? capBefore + 1 : 0;
+			if (o.a == R_ZERO) { A->clear(); vf::add(W_CLEAR); } else A->resize(m);
+			fillNew(*A, N); M->resize(m, 0); break; }
 		case K_RESERVE: A->reserve(capBefore + 1); break;
 		case K_SORT: A->sort(); std::sort(M->begin(), M->end()); break;
 		case K_REVERSED: { *A = A->reversed(); std::shared_ptr<std::vector<int> > r = std::make_shared<std::vector<int> >(M->rbegin(), M->rend()); ms[o.h] = r; break; }
@@ -227,10 +306,10 @@ struct ArrSys {
 		case K_CONCAT_SELF: { *A = *A | *A; std::shared_ptr<std::vector<int> > r = std::make_shared<std::vector<int> >(*M); r->insert(r->end(), M->begin(), M->end()); ms[o.h] = r; break; }
 		case K_FILTER: { *A = A->filter(not2); std::shared_ptr<std::vector<int> > r = std::make_shared<std::vector<int> >(); for (int i = 0; i < N; i++) if ((*M)[i] != 2) r->push_back((*M)[i]); ms[o.h] = r; break; }
 		case K_MAP: { *A = A->map(inc); std::shared_ptr<std::vector<int> > r = std::make_shared<std::vector<int> >(); for (int i = 0; i < N; i++) r->push_back(((*M)[i] + 1) % 4); ms[o.h] = r; break; }
-		case K_DUP: A->dup(); if (shared) ms[o.h] = std::make_shared<std::vector<int> >(*M); break;
+		case K_DUP: vf::add(shared ? W_DUP_SHARED : W_DUP_UNSHARED); A->dup(); if (shared) ms[o.h] = std::make_shared<std::vector<int> >(*M); break;
 		case K_SELFASSIGN: { Array<T>& self = *A; *A = self; break; }
 		case K_BIG: A->resize(o.a); fillNew(*A, N); M->resize(o.a, 0); break;
-		case K_CLONE: is[o.j] = new Array<T>(A->clone()); ms[o.j] = std::make_shared<std::vector<int> >(*M); vf::add(W_CLONE_THEN_MUT); break;
+		case K_CLONE: is[o.j] = new Array<T>(A->clone()); ms[o.j] = std::make_shared<std::vector<int> >(*M); cloneSrc[o.j] = M; vf::add(W_CLONE_THEN_MUT); break;
 		case K_COPYH: is[o.j] = new Array<T>(*A); ms[o.j] = M; break;
 		case K_ASSIGN: *is[o.j] = *A; ms[o.j] = M; break;
 		case K_APPEND_OTHER: { if (ms[o.j] == M) vf::add(W_ALIAS_OP); std::vector<int> c(*ms[o.j]); A->append(*is[o.j]); M->insert(M->end(), c.begin(), c.end()); break; }
@@ -240,11 +319,55 @@ struct ArrSys {
 		case K_SLICE_TO: is[o.j] = new Array<T>(A->slice(0)); ms[o.j] = std::make_shared<std::vector<int> >(*M); break;
 		case K_FILTER_TO: { is[o.j] = new Array<T>(A->filter(not2)); std::shared_ptr<std::vector<int> > r = std::make_shared<std::vector<int> >(); for (int i = 0; i < N; i++) if ((*M)[i] != 2) r->push_back((*M)[i]); ms[o.j] = r; break; }
 		case K_DROP: delete is[o.h]; is[o.h] = 0; ms[o.h].reset(); break;
+		// ---- extended alphabet
+		case K_NEWIL: { is[o.h] = new Array<T>{ Tr<T>::make(3), Tr<T>::make(1), Tr<T>::make(2) }; int v[] = { 3, 1, 2 }; ms[o.h] = std::make_shared<std::vector<int> >(v, v + 3); vf::add(W_NEW_IL); break; }
+		case K_APPEND_PTR_SELF: {
+			int off = o.a == P_LAST ? N - 1 : 0, k = o.a == P_ALL ? N : 1;
+			vf::add(W_APTR_SELF); vf::add(W_ALIAS_OP); if (N + k > capBefore && !shared) vf::add(W_APTR_SELF_GROW);
+			std::vector<int> c(M->begin() + off, M->begin() + off + k);
+			A->append(A->data() + off, k); M->insert(M->end(), c.begin(), c.end()); break; }
+		case K_APPEND_PTR_OTHER: { vf::add(W_APTR_OTHER); if (ms[o.j] == M) vf::add(W_ALIAS_OP); std::vector<int> c(*ms[o.j]); A->append(is[o.j]->data(), is[o.j]->length()); M->insert(M->end(), c.begin(), c.end()); break; }
+		case K_COPY_PTR_SELF: { int off = o.a == 0 ? 1 : 0; vf::add(W_CPTR_SELF); vf::add(W_ALIAS_OP); std::vector<int> c(M->begin() + off, M->begin() + off + N - 1); A->copy(A->data() + off, N - 1); *M = c; break; }
+		case K_COPY_PTR_OTHER: { if (n(o.j) > capBefore) vf::add(W_CPTR_OTHER_GROW); std::vector<int> c(*ms[o.j]); A->copy(is[o.j]->data(), is[o.j]->length()); *M = c; break; }
+		case K_NEW_FROM_PTR: is[o.j] = new Array<T>(A->data(), N); ms[o.j] = std::make_shared<std::vector<int> >(*M); vf::add(W_NEW_PTR); break;
+		case K_NEW_FILL: is[o.j] = new Array<T>(2, (*A)[0]); ms[o.j] = std::make_shared<std::vector<int> >(2, (*M)[0]); vf::add(W_NEW_FILL); break;
+		case K_APPEND_IL: {
+			vf::add(W_APPEND_IL);
+			if (o.a == 0) { A->append({ Tr<T>::make(1), Tr<T>::make(2) }); M->push_back(1); M->push_back(2); }
+			else { vf::add(W_ALIAS_OP); int v0 = (*M)[0], v1 = (*M)[N - 1]; A->append({ (*A)[0], (*A)[N - 1] }); M->push_back(v0); M->push_back(v1); }
+			break; }
+		case K_ASSIGN_IL: {
+			vf::add(W_ASSIGN_IL);
+			if (o.a == 0) { std::initializer_list<T> il = { Tr<T>::make(2), Tr<T>::make(1) }; *A = il; M->clear(); M->push_back(2); M->push_back(1); }
+			else { vf::add(W_ALIAS_OP); int v0 = (*M)[N - 1], v1 = (*M)[0]; std::initializer_list<T> il = { (*A)[N - 1], (*A)[0] }; *A = il; M->clear(); M->push_back(v0); M->push_back(v1); }
+			break; }
+		case K_SORT_DESC: vf::add(W_SORT_CMP); if (!sortedAsc(*M)) vf::add(W_SORT_CMP_UNSORTED); A->sort(DescLess()); std::sort(M->begin(), M->end(), std::greater<int>()); break;
+		case K_SORTBY:
+			vf::add(W_SORT_CMP); if (!sortedAsc(*M)) vf::add(W_SORT_CMP_UNSORTED);
+			if (o.a) { A->sortBy(keyOf); std::sort(M->begin(), M->end()); } else { vf::add(W_SORTBY_DESC); A->sortBy(keyOf, false); std::sort(M->begin(), M->end(), std::greater<int>()); }
+			break;
+		case K_REMOVEONE_FROM: {
+			bool r = A->removeOne(Tr<T>::make(1), 1);
+			std::vector<int>::iterator it = std::find(M->begin() + 1, M->end(), 1); bool e = it != M->end();
+			if (e) { vf::add(W_RM1_FROM_FOUND); if ((*M)[0] == 1) vf::add(W_RM1_FROM_SKIPPED); M->erase(it); } else if ((*M)[0] == 1) vf::add(W_RM1_FROM_SKIPPED);
+			if (r != e) { err = "removeOne(x, 1) return value"; return false; }
+			break; }
+		case K_SET: {
+			if (shared) vf::add(W_SET_SHARED);
+			for (int g = 0; g < NS; g++) if (g != o.h && ms[g] && ms[g] != M) { if (cloneSrc[g].lock() == M) vf::add(W_SET_SRC_OF_CLONE); if (cloneSrc[o.h].lock() == ms[g]) vf::add(W_SET_CLONE_OF_SRC); }
+			(*A)[N / 2] = Tr<T>::make(1); (*M)[N / 2] = 1; break; }
+		case K_REMOVE_N: vf::add(W_REMOVE_N); if (o.a == 0) { A->remove(1, 2); M->erase(M->begin() + 1, M->begin() + 3); } else A->remove(0, 0); break;
+		case K_SLICE_MID: {
+			vf::add(W_SLICE_MID);
+			if (o.a == 0) { *A = A->slice(1, N - 1); ms[o.h] = std::make_shared<std::vector<int> >(M->begin() + 1, M->begin() + (N - 1)); }
+			else { *A = A->slice(N); ms[o.h] = std::make_shared<std::vector<int> >(); }
+			break; }
 		}
+		if (ms[o.h] != M) cloneSrc[o.h].reset(); // the slot holds another object now
 		M.reset();
 		if (A && is[o.h] == A && capBefore && A->cap() > capBefore) {
 			if (o.k == K_APPEND || o.k == K_INSERT || o.k == K_APPEND_ALIAS || o.k == K_INSERT_ALIAS) vf::add(W_GROW_INSERT);
-			else if ((size_t)capBefore * sizeof(T) < 2048) vf::add(W_GROW_MALLOC); else vf::add(W_GROW_REALLOC_RESERVE);
+			else if ((size_t)capBefore * sizeof(T) < 2048) vf::add(W_GROW_MALLOC); else { vf::add(W_GROW_REALLOC_RESERVE); if (wRealloc >= 0) vf::add(wRealloc); }
 		}
 		return observe(err);
 	}
@@ -266,13 +389,47 @@ struct ArrSys {
 				if (same != (is[g]->data() == a.data())) { err = fmt("h%d and h%d: handle aliasing differs from reference", g, h); return false; }
 				bool eq = *is[g] == a, meq = *ms[g] == m;
 				if (eq != meq) { err = fmt("h%d == h%d is %d, reference %d", g, h, (int)eq, (int)meq); return false; }
+				if ((*is[g] != a) == meq) { err = fmt("h%d != h%d is %d, reference %d", g, h, (int)(*is[g] != a), (int)!meq); return false; }
 			}
 			if (a.length() && Tr<T>::val(a.last()) != m.back()) { err = "last()"; return false; }
+			if ((!a) != m.empty()) { err = fmt("!h%d is %d, reference %d", h, (int)!a, (int)m.empty()); return false; }
+			int N = (int)m.size();
 			for (int v = 0; v < 4; v++) {
-				std::vector<int>::const_iterator it = std::find(m.begin(), m.end(), v);
-				int e = it == m.end() ? -1 : (int)(it - m.begin());
-				int r = a.indexOf(Tr<T>::make(v));
-				if (r != e || a.contains(Tr<T>::make(v)) != (e >= 0)) { err = fmt("h%d.indexOf(%d) = %d, reference %d", h, v, r, e); return false; }
+				T x = Tr<T>::make(v);
+				int starts[3] = { 0, 1, N - 1 };
+				std::vector<int>::const_iterator it0 = std::find(m.begin(), m.end(), v);
+				int e0 = it0 == m.end() ? -1 : (int)(it0 - m.begin());
+				for (int si = 0; si < (N >= 1 ? 3 : 1); si++) { // indexOf(x, j) for j = 0, 1, n-1 (j <= n)
+					int j = starts[si];
+					std::vector<int>::const_iterator it = std::find(m.begin() + j, m.end(), v);
+					int e = it == m.end() ? -1 : (int)(it - m.begin());
+					int r = j == 0 ? a.indexOf(x) : a.indexOf(x, j);
+					if (r != e) { err = fmt("h%d.indexOf(%d, %d) = %d, reference %d", h, v, j, r, e); return false; }
+					if (j == 0 && a.contains(x) != (e >= 0)) { err = fmt("h%d.contains(%d) = %d, reference %d", h, v, (int)a.contains(x), (int)(e >= 0)); return false; }
+					if (j > 0 && e != e0) vf::add(W_INDEXOF_FROM); // start offset changes the answer
+				}
+			}
+			// iteration: range-for (begin/end), foreach (all()), slice_ enumerators
+			{
+				int i = 0;
+				for (const T& x : a) { if (i >= N || Tr<T>::val(x) != m[i]) { err = fmt("range-for over h%d: item %d differs from reference", h, i); return false; } i++; }
+				if (i != N) { err = fmt("range-for over h%d visits %d items, reference %d", h, i, N); return false; }
+				i = 0;
+				foreach (const T& y, a) { if (i >= N || Tr<T>::val(y) != m[i]) { err = fmt("foreach over h%d: item %d differs from reference", h, i); return false; } i++; }
+				if (i != N) { err = fmt("foreach over h%d visits %d items, reference %d", h, i, N); return false; }
+				vf::add(W_ITER, (uint64_t)N);
+				for (int w = 0; w < 2; w++) {
+					if (w == 0 ? N < 1 : N < 2) continue;
+					int b = w == 0 ? 1 : 0, e = w == 0 ? N : N - 1; // slice_(1) and slice_(0, n-1)
+					typename Array<T>::Enumerator en = w == 0 ? is[h]->slice_(1) : is[h]->slice_(0, N - 1); // the const overload of slice_ is ill-formed (does not compile when used)
+					const char* nm = w == 0 ? "slice_(1)" : "slice_(0, n-1)";
+					if (en.length() != e - b) { err = fmt("h%d.%s.length() = %d, reference %d", h, nm, en.length(), e - b); return false; }
+					if (e - b >= 1 && (Tr<T>::val(en[0]) != m[b] || Tr<T>::val(en[e - b - 1]) != m[e - 1])) { err = fmt("h%d.%s[k] differs from reference", h, nm); return false; }
+					int k = b;
+					for (; en; ++en) { if (k >= e || ~en != k || Tr<T>::val(*en) != m[k]) { err = fmt("h%d.%s: item at %d differs from reference", h, nm, k); return false; } k++; }
+					if (k != e) { err = fmt("h%d.%s stops at %d, reference %d", h, nm, k, e); return false; }
+					vf::add(W_SLICE_ENUM);
+				}
 			}
 			if (seenObj.insert(a.data()).second) { liveElems += a.length(); objects++; }
 		}
@@ -308,42 +465,81 @@ struct ArrSys {
 // ---------------------------------------------------------------- Stack / Queue
 template <class T>
 struct SQSys {
-	enum K { S_PUSH, S_POP, S_POPN, S_POPGET, S_SHR, S_TOPSET, Q_PUT, Q_GET, Q_SHL, Q_SHR, S_PUSH_TOP, Q_PUT_FRONT };
+	enum K { S_PUSH, S_POP, S_POPN, S_POPGET, S_SHR, S_TOPSET, Q_PUT, Q_GET, Q_SHL, Q_SHR, S_PUSH_TOP, Q_PUT_FRONT,
+		S_COPY, S_DUP2, S_DROP2, S_BIG, Q_COPY, Q_DROP2 };
 	struct O { int k, a; };
 	std::vector<O> ops;
 	Stack<T>* st; Queue<T>* qu;
-	std::vector<int> ms, mq;
-	SQSys() : st(0), qu(0) {
-		int ks[] = { S_PUSH, S_PUSH, S_POP, S_POPN, S_POPGET, S_SHR, S_TOPSET, S_PUSH_TOP, Q_PUT, Q_PUT, Q_GET, Q_SHL, Q_SHR, Q_PUT_FRONT };
-		int as[] = { 1, 2, 0, 2, 0, 0, 3, 0, 1, 2, 0, 3, 0, 0 };
+	Stack<T>* st2; Queue<T>* qu2;         // second handles (copy-constructed: share the block until S_DUP2)
+	std::vector<int> ms, mq, ms2;
+	bool has2, shared2, hasq2;            // st2 exists / still shares st's block / qu2 exists (always shares)
+	enum { BOTH = 0, STACK_ONLY = 1, QUEUE_ONLY = 2 };
+	int mode;                             // the two containers never interact: they are explored separately ("stack<T>", "queue<T>"); BOTH only replays old "stackq<T>" cases
+	static bool isStackOp(int k) { return k == S_PUSH || k == S_POP || k == S_POPN || k == S_POPGET || k == S_SHR || k == S_TOPSET || k == S_PUSH_TOP || k == S_COPY || k == S_DUP2 || k == S_DROP2 || k == S_BIG; }
+	SQSys(int mode_ = BOTH) : st(0), qu(0), st2(0), qu2(0), has2(false), shared2(false), hasq2(false), mode(mode_) {
+		// the first 14 entries are the original alphabet (old case strings stay valid)
+		int ks[] = { S_PUSH, S_PUSH, S_POP, S_POPN, S_POPGET, S_SHR, S_TOPSET, S_PUSH_TOP, Q_PUT, Q_PUT, Q_GET, Q_SHL, Q_SHR, Q_PUT_FRONT,
+			S_POPN, S_COPY, S_DUP2, S_DROP2, S_BIG, Q_COPY, Q_DROP2 };
+		int as[] = { 1, 2, 0, 2, 0, 0, 3, 0, 1, 2, 0, 3, 0, 0,
+			3, 0, 0, 0, 90, 0, 0 };
 		for (size_t i = 0; i < sizeof ks / sizeof *ks; i++) { O o = { ks[i], as[i] }; ops.push_back(o); }
 	}
 	int nops() { return (int)ops.size(); }
-	void reset() { delete st; delete qu; st = 0; qu = 0; ms.clear(); mq.clear(); std::vector<int>().swap(ms); std::vector<int>().swap(mq); reg.reset(); st = new Stack<T>(); qu = new Queue<T>(); }
+	int alphabet() { int c = 0; for (int i = 0; i < nops(); i++) if (mode == BOTH || (mode == STACK_ONLY) == isStackOp(ops[i].k)) c++; return c; }
+	void reset() {
+		delete st; delete qu; delete st2; delete qu2; st = 0; qu = 0; st2 = 0; qu2 = 0; has2 = shared2 = hasq2 = false;
+		std::vector<int>().swap(ms); std::vector<int>().swap(mq); std::vector<int>().swap(ms2); reg.reset(); st = new Stack<T>(); qu = new Queue<T>();
+	}
+	bool sroom() { return ms.size() < 8 || (ms.size() >= 90 && ms.size() < 92); }
 	bool enabled(int op) {
 		const O& o = ops[op];
+		if (mode != BOTH && (mode == STACK_ONLY) != isStackOp(o.k)) return false;
 		switch (o.k) {
-		case S_PUSH: return ms.size() < 8;
+		case S_PUSH: return sroom();
 		case S_POP: case S_POPGET: case S_SHR: case S_TOPSET: return ms.size() >= 1;
-		case S_PUSH_TOP: return ms.size() >= 1 && ms.size() < 8;
-		case S_POPN: return ms.size() >= 2;
+		case S_PUSH_TOP: return ms.size() >= 1 && sroom();
+		case S_POPN: return (int)ms.size() >= o.a;
 		case Q_PUT: case Q_SHL: return mq.size() < 8;
 		case Q_GET: case Q_SHR: return mq.size() >= 1;
 		case Q_PUT_FRONT: return mq.size() >= 1 && mq.size() < 8;
+		case S_COPY: return !has2;
+		case S_DUP2: return has2 && shared2;
+		case S_DROP2: return has2;
+		case S_BIG: return ms.size() >= 1 && ms.size() < 8;
+		case Q_COPY: return !hasq2;
+		case Q_DROP2: return hasq2;
 		}
 		return false;
 	}
-	const char* predict(int) { return 0; }
+	// growth through one handle while the other shares the block is the listed finding
+	const char* predict(int op) {
+		const O& o = ops[op];
+		if (!st || !qu) return 0;
+		if ((o.k == S_PUSH || o.k == S_PUSH_TOP) && has2 && shared2 && (int)ms.size() == st->cap()) return "grow_while_shared";
+		if (o.k == S_BIG && has2 && shared2 && o.a > st->cap()) return "grow_while_shared";
+		if ((o.k == Q_PUT || o.k == Q_SHL || o.k == Q_PUT_FRONT) && hasq2 && (int)mq.size() == qu->cap()) return "grow_while_shared";
+		return 0;
+	}
 	std::string opname(int op) {
-		static const char* N[] = { "stack.push(%d)", "stack.pop()", "stack.pop(%d)", "stack.popget()", "stack >> x", "stack.top() = %d", "queue.put(%d)", "queue.get()", "queue << %d", "queue >> x", "stack.push(stack.top())", "queue.put(queue[0])" };
+		static const char* N[] = { "stack.push(%d)", "stack.pop()", "stack.pop(%d)", "stack.popget()", "stack >> x", "stack.top() = %d", "queue.put(%d)", "queue.get()", "queue << %d", "queue >> x", "stack.push(stack.top())", "queue.put(queue[0])",
+			"stack2 = copy of stack", "stack2.dup()", "drop stack2", "stack.resize(%d)", "queue2 = copy of queue", "drop queue2" };
 		return fmt(N[ops[op].k], ops[op].a);
 	}
 	bool apply(int op, std::string& err) {
 		const O& o = ops[op];
+		if (isStackOp(o.k) && o.k != S_COPY && o.k != S_DUP2 && o.k != S_DROP2 && has2 && shared2) vf::add(W_SQ_SHARED_OP);
+		if ((o.k == S_PUSH || o.k == S_PUSH_TOP) && (int)ms.size() == st->cap()) { vf::add(W_SQ_PUSH_FULL); if (o.k == S_PUSH_TOP) vf::add(W_SQ_ALIAS_PUSH_FULL); if ((size_t)st->cap() * sizeof(T) >= 1024) vf::add(W_SQ_PUSH_FULL_BIG); }
+		if ((o.k == Q_PUT || o.k == Q_SHL || o.k == Q_PUT_FRONT) && (int)mq.size() == qu->cap()) { vf::add(W_SQ_PUT_FULL); if (o.k == Q_PUT_FRONT) vf::add(W_SQ_ALIAS_PUT_FULL); }
 		switch (o.k) {
 		case S_PUSH: st->push(Tr<T>::make(o.a)); ms.push_back(o.a); break;
 		case S_POP: st->pop(); ms.pop_back(); break;
-		case S_POPN: st->pop(2); ms.pop_back(); ms.pop_back(); break;
+		case S_POPN: st->pop(o.a); ms.resize(ms.size() - o.a); if (o.a == 3) vf::add(W_SQ_POP3); break;
+		case S_COPY: st2 = new Stack<T>(*st); has2 = shared2 = true; vf::add(W_SQ_COPY); break;
+		case S_DUP2: st2->dup(); ms2 = ms; shared2 = false; break;
+		case S_DROP2: delete st2; st2 = 0; has2 = shared2 = false; std::vector<int>().swap(ms2); break;
+		case S_BIG: st->resize(o.a); ms.resize(o.a, 0); break;
+		case Q_COPY: qu2 = new Queue<T>(*qu); hasq2 = true; break;
+		case Q_DROP2: delete qu2; qu2 = 0; hasq2 = false; break;
 		case S_POPGET: { T x = st->popget(); if (Tr<T>::val(x) != ms.back()) { err = "popget value"; return false; } ms.pop_back(); break; }
 		case S_SHR: { T x = Tr<T>::make(0); *st >> x; if (Tr<T>::val(x) != ms.back()) { err = "stack >> value"; return false; } ms.pop_back(); break; }
 		case S_TOPSET: st->top() = Tr<T>::make(o.a); ms.back() = o.a; break;
@@ -357,18 +553,247 @@ struct SQSys {
 		if (st->length() != (int)ms.size() || qu->length() != (int)mq.size()) { err = "length"; return false; }
 		for (size_t i = 0; i < ms.size(); i++) if (Tr<T>::val((*st)[(int)i]) != ms[i] || Tr<T>::val(st->top((int)(ms.size() - 1 - i))) != ms[i]) { err = fmt("stack[%d]", (int)i); return false; }
 		for (size_t i = 0; i < mq.size(); i++) if (Tr<T>::val((*qu)[(int)i]) != mq[i]) { err = fmt("queue[%d]", (int)i); return false; }
+		if (ms.size() && Tr<T>::val(const_cast<const Stack<T>*>(st)->top()) != ms.back()) { err = "const top()"; return false; }
+		size_t held = ms.size() + mq.size();
+		if (has2) {
+			const std::vector<int>& m2 = shared2 ? ms : ms2;
+			if (st2->length() != (int)m2.size()) { err = fmt("stack2.length() = %d, reference %d", st2->length(), (int)m2.size()); return false; }
+			for (size_t i = 0; i < m2.size(); i++) if (Tr<T>::val(const_cast<const Stack<T>*>(st2)->top((int)(m2.size() - 1 - i))) != m2[i]) { err = fmt("stack2[%d]", (int)i); return false; }
+			if (shared2 != (st2->data() == st->data())) { err = "stack / stack2 aliasing differs from reference"; return false; }
+			if (st->rc() != (shared2 ? 2 : 1) || st2->rc() != (shared2 ? 2 : 1)) { err = fmt("stack shared count %d / %d, reference %d", st->rc(), st2->rc(), shared2 ? 2 : 1); return false; }
+			if (!shared2) held += ms2.size();
+		} else if (st->rc() != 1) { err = fmt("stack shared count %d with one handle", st->rc()); return false; }
+		if (hasq2) {
+			if (qu2->length() != (int)mq.size() || qu2->data() != qu->data() || qu->rc() != 2) { err = "queue2 differs from queue"; return false; }
+		} else if (qu->rc() != 1) { err = fmt("queue shared count %d with one handle", qu->rc()); return false; }
 		if (Tr<T>::counted) {
 			if (reg.errors) { err = reg.firstError; return false; }
-			if (reg.live.size() != ms.size() + mq.size()) { err = fmt("%d element instances alive, containers hold %d", (int)reg.live.size(), (int)(ms.size() + mq.size())); return false; }
+			if (reg.live.size() != held) { err = fmt("%d element instances alive, containers hold %d", (int)reg.live.size(), (int)held); return false; }
 		}
 		return true;
 	}
+	static std::string enc(const std::vector<int>& m) {
+		std::string s;
+		if (m.size() > 20) { // after resize(90): the run of default elements in the middle is summarised by the length
+			s += fmt("n%d:", (int)m.size());
+			for (size_t i = 0; i < 8; i++) s += char('0' + m[i]);
+			s += "..";
+			for (size_t i = m.size() - 4; i < m.size(); i++) s += char('0' + m[i]);
+		} else for (size_t i = 0; i < m.size(); i++) s += char('0' + m[i]);
+		return s;
+	}
 	std::string canon() {
-		std::string s = fmt("S c%d:", st->cap());
-		for (size_t i = 0; i < ms.size(); i++) s += char('0' + ms[i]);
+		std::string s = fmt("S c%d:", st->cap()) + enc(ms);
+		if (has2) { s += shared2 ? "|S2=" : fmt("|S2 c%d:", st2->cap()); if (!shared2) s += enc(ms2); }
 		s += fmt("|Q c%d:", qu->cap());
 		for (size_t i = 0; i < mq.size(); i++) s += char('0' + mq[i]);
+		if (hasq2) s += "|Q2=";
 		return s;
+	}
+};
+
+
+// ---------------------------------------------------------------- nested arrays
+// Node holds an Array<Node> (as asl::Var and asl::Xml do): the argument of operator=, append and << can then live inside an
+// element of the very array it is applied to. Reference model: vectors held by shared_ptr (asl handles share by reference).
+struct Node {
+	Array<Node> kids; int id, v;
+	Node() : id(reg.born()), v(0) {}
+	explicit Node(int x) : id(reg.born()), v(x) {}
+	Node(const Node& o) : kids(o.kids), id(reg.born()), v(o.v) {}
+	Node& operator=(const Node& o) { if (!reg.live.count(id)) { reg.errors++; if (reg.firstError.empty()) reg.firstError = "assignment to an element that is not live"; } kids = o.kids; v = o.v; return *this; }
+	~Node() { reg.died(id); }
+};
+struct MNode;
+typedef std::shared_ptr<std::vector<MNode> > MArr;
+struct MNode { int v; MArr kids; };
+static MArr mkArr() { return std::make_shared<std::vector<MNode> >(); }
+static MNode mkNode(int v) { MNode n; n.v = v; n.kids = mkArr(); return n; }
+
+struct NestSys {
+	enum K { N_LEAF, N_PAIR, N_ASSIGN_FIRST, N_ASSIGN_LAST, N_ASSIGN_GRAND, N_APPEND_KIDS, N_PUSH_ELEM, N_INSERT_ELEM, N_KEEP, N_DROP_KEEP, N_REMOVE0, N_INNER_ASSIGN, N_INNER_PUSH, NK };
+	Array<Node>* root; Array<Node>* keep;
+	MArr mr, mk;
+	NestSys() : root(0), keep(0) {}
+	int nops() { return NK; }
+	int alphabet() { return NK; }
+	void reset() { delete root; delete keep; root = keep = 0; mr.reset(); mk.reset(); reg.reset(); root = new Array<Node>(); mr = mkArr(); }
+	int n() { return (int)mr->size(); }
+	int nk0() { return (int)(*mr)[0].kids->size(); }
+	bool enabled(int op) {
+		switch (op) {
+		case N_LEAF: case N_PAIR: return n() < 5;
+		case N_ASSIGN_FIRST: return n() >= 1;
+		case N_ASSIGN_LAST: return n() >= 2;
+		case N_ASSIGN_GRAND: return n() >= 1 && nk0() >= 1;
+		case N_APPEND_KIDS: return n() >= 1 && nk0() >= 1 && n() + nk0() <= 6;
+		case N_PUSH_ELEM: return n() >= 1 && n() < 5;
+		case N_INSERT_ELEM: return n() >= 2 && n() < 5;
+		case N_KEEP: return !mk;
+		case N_DROP_KEEP: return (bool)mk;
+		case N_REMOVE0: return n() >= 1;
+		case N_INNER_ASSIGN: return n() >= 2;
+		case N_INNER_PUSH: return n() >= 1 && nk0() < 4;
+		}
+		return false;
+	}
+	const char* predict(int op) {
+		if (!root || !mr) return 0;
+		switch (op) {
+		case N_LEAF: case N_PAIR: case N_PUSH_ELEM: case N_INSERT_ELEM: return root->rc() >= 2 && n() == root->cap() ? "grow_while_shared" : 0;
+		case N_APPEND_KIDS: return root->rc() >= 2 && n() + nk0() > root->cap() ? "grow_while_shared" : 0;
+		case N_INNER_PUSH: { Array<Node>& k = (*root)[0].kids; return k.rc() >= 2 && k.length() == k.cap() ? "grow_while_shared" : 0; }
+		}
+		return 0;
+	}
+	std::string opname(int op) {
+		static const char* N[] = { "r << Node(1)", "r << Node(2){kids: Node(1), Node(3)}", "r = r[0].kids", "r = r[n-1].kids", "r = r[0].kids[0].kids", "r.append(r[0].kids)", "r << r[0]", "r.insert(0, r[n-1])",
+			"keep = copy-of-handle r", "drop keep", "r.remove(0)", "r[0].kids = r[n-1].kids", "r[0].kids << Node(3)" };
+		return N[op];
+	}
+	bool apply(int op, std::string& err) {
+		Array<Node>& r = *root;
+		int N = n();
+		switch (op) {
+		case N_LEAF: r << Node(1); mr->push_back(mkNode(1)); break;
+		case N_PAIR: { Node p(2); p.kids << Node(1) << Node(3); r << p; MNode m = mkNode(2); m.kids->push_back(mkNode(1)); m.kids->push_back(mkNode(3)); mr->push_back(m); break; }
+		case N_ASSIGN_FIRST: if (r.rc() == 1) vf::add(W_NEST_ASSIGN_LASTREF); r = r[0].kids; { MArr t = (*mr)[0].kids; mr = t; } break;
+		case N_ASSIGN_LAST: if (r.rc() == 1) vf::add(W_NEST_ASSIGN_LASTREF); r = r[N - 1].kids; { MArr t = (*mr)[N - 1].kids; mr = t; } break;
+		case N_ASSIGN_GRAND: if (r.rc() == 1) { vf::add(W_NEST_ASSIGN_LASTREF); vf::add(W_NEST_ASSIGN_GRAND); } r = r[0].kids[0].kids; { MArr t = (*(*mr)[0].kids)[0].kids; mr = t; } break;
+		case N_APPEND_KIDS: { if (N + nk0() > r.cap()) vf::add(W_NEST_APPEND_KIDS_GROW); std::vector<MNode> c(*(*mr)[0].kids); r.append(r[0].kids); mr->insert(mr->end(), c.begin(), c.end()); break; }
+		case N_PUSH_ELEM: { MNode c = (*mr)[0]; r << r[0]; mr->push_back(c); break; }
+		case N_INSERT_ELEM: { MNode c = (*mr)[N - 1]; r.insert(0, r[N - 1]); mr->insert(mr->begin(), c); break; }
+		case N_KEEP: keep = new Array<Node>(r); mk = mr; break;
+		case N_DROP_KEEP: delete keep; keep = 0; mk.reset(); break;
+		case N_REMOVE0: r.remove(0); mr->erase(mr->begin()); break;
+		case N_INNER_ASSIGN: r[0].kids = r[N - 1].kids; { MArr t = (*mr)[N - 1].kids; (*mr)[0].kids = t; } break;
+		case N_INNER_PUSH: r[0].kids << Node(3); (*mr)[0].kids->push_back(mkNode(3)); break;
+		}
+		return observe(err);
+	}
+	struct Walk {
+		std::map<const void*, const void*> m2i, i2m;
+		std::map<const void*, int> refs;
+		std::vector<std::pair<const Array<Node>*, const void*> > blocks;
+		int elems; bool sharedKids;
+		Walk() : elems(0), sharedKids(false) {}
+	};
+	bool walk(const Array<Node>& a, const MArr& m, Walk& w, const std::string& path, std::string& err) {
+		w.refs[m.get()]++;
+		std::map<const void*, const void*>::iterator it = w.m2i.find(m.get());
+		if (it != w.m2i.end()) { w.sharedKids = true; if (it->second != (const void*)a.data()) { err = path + ": shares its block with another array in the reference but not in the implementation"; return false; } return true; }
+		if (w.i2m.count(a.data())) { err = path + ": distinct in the reference but the same block as another array in the implementation"; return false; }
+		w.m2i[m.get()] = a.data(); w.i2m[a.data()] = m.get();
+		w.blocks.push_back(std::make_pair(&a, (const void*)m.get()));
+		if (a.length() != (int)m->size()) { err = fmt("%s.length() = %d, reference %d", path.c_str(), a.length(), (int)m->size()); return false; }
+		if (a.cap() < a.length()) { err = path + ": capacity below length"; return false; }
+		w.elems += a.length();
+		for (int i = 0; i < a.length(); i++) {
+			if (a[i].v != (*m)[i].v) { err = fmt("%s[%d] = %d, reference %d", path.c_str(), i, a[i].v, (*m)[i].v); return false; }
+			if (!walk(a[i].kids, (*m)[i].kids, w, path + fmt("[%d].kids", i), err)) return false;
+		}
+		return true;
+	}
+	bool observe(std::string& err) {
+		Walk w;
+		if (!walk(*root, mr, w, "r", err)) return false;
+		if (mk && !walk(*keep, mk, w, "keep", err)) return false;
+		for (size_t i = 0; i < w.blocks.size(); i++) if (w.blocks[i].first->rc() != w.refs[w.blocks[i].second]) { err = fmt("an array block has shared count %d but %d live handles", w.blocks[i].first->rc(), w.refs[w.blocks[i].second]); return false; }
+		if (w.sharedKids) vf::add(W_NEST_SHARED_KIDS);
+		if (reg.errors) { err = reg.firstError; return false; }
+		if ((int)reg.live.size() != w.elems) { err = fmt("%d element instances alive but live arrays hold %d elements", (int)reg.live.size(), w.elems); return false; }
+		return true;
+	}
+	void canonOf(const Array<Node>& a, const MArr& m, std::map<const void*, int>& ids, std::string& s) {
+		std::map<const void*, int>::iterator it = ids.find(m.get());
+		if (it != ids.end()) { s += fmt("=%d", it->second); return; }
+		int id = (int)ids.size(); ids[m.get()] = id;
+		s += fmt("#%d c%d r%d[", id, a.cap(), a.rc());
+		for (int i = 0; i < a.length(); i++) { s += char('0' + (*m)[i].v); canonOf(a[i].kids, (*m)[i].kids, ids, s); }
+		s += "]";
+	}
+	std::string canon() {
+		std::string s; std::map<const void*, int> ids;
+		canonOf(*root, mr, ids, s);
+		s += "|";
+		if (mk) canonOf(*keep, mk, ids, s);
+		return s;
+	}
+};
+
+// ---------------------------------------------------------------- sorts: every value sequence up to a length
+template <class T>
+struct SortX {
+	std::string label; int nvals;
+	SortX(const std::string& l, int nv) : label(l), nvals(nv) {}
+	static int keyOf(const T& x) { return Tr<T>::val(x); }
+	struct DescLess { bool operator()(const T& a, const T& b) const { return Tr<T>::val(b) < Tr<T>::val(a); } };
+	static const char* vname(int k) { static const char* N[] = { "sort()", "sort(a>b)", "sortBy(value)", "sortBy(value, descending)" }; return N[k]; }
+	uint64_t count(int maxLen) { uint64_t t = 0, p = 1; for (int L = 0; L <= maxLen; L++) { t += p; p *= nvals; } return t; }
+	std::string digits(uint64_t i) { // index -> sequence (shorter sequences first)
+		uint64_t p = 1; int L = 0;
+		while (i >= p) { i -= p; p *= nvals; L++; }
+		std::string d(L, '0');
+		for (int k = L - 1; k >= 0; k--) { d[k] = char('0' + i % nvals); i /= nvals; }
+		return d;
+	}
+	// one pass over the four sorts; returns false and fills sig/desc on failure
+	bool once(const std::string& d, std::string& sig, std::string& desc) {
+		reg.reset();
+		std::vector<int> m;
+		for (size_t i = 0; i < d.size(); i++) m.push_back(d[i] - '0');
+		bool ok = true;
+		{
+			std::vector<T> src;
+			for (size_t i = 0; i < m.size(); i++) src.push_back(Tr<T>::make(m[i]));
+			Array<T> base(src.data(), (int)src.size());
+			for (int k = 0; k < 4 && ok; k++) {
+				Array<T> a = base.clone();
+				std::vector<int> e(m);
+				switch (k) {
+				case 0: a.sort(); std::sort(e.begin(), e.end()); break;
+				case 1: a.sort(DescLess()); std::sort(e.begin(), e.end(), std::greater<int>()); break;
+				case 2: a.sortBy(keyOf); std::sort(e.begin(), e.end()); break;
+				case 3: a.sortBy(keyOf, false); std::sort(e.begin(), e.end(), std::greater<int>()); break;
+				}
+				if (a.length() != (int)e.size()) { ok = false; sig = "diverge"; desc = fmt("%s: length %d, reference %d", vname(k), a.length(), (int)e.size()); break; }
+				for (int i = 0; i < a.length() && ok; i++) if (Tr<T>::val(a[i]) != e[i]) { ok = false; sig = "diverge"; desc = fmt("%s: item %d = %d, reference %d", vname(k), i, Tr<T>::val(a[i]), e[i]); }
+				for (int i = 0; i < base.length() && ok; i++) if (Tr<T>::val(base[i]) != m[i]) { ok = false; sig = "diverge"; desc = fmt("%s on a clone changed the source at %d", vname(k), i); }
+				if (ok && Tr<T>::counted && (reg.errors || reg.live.size() != 3 * m.size())) { ok = false; sig = "diverge"; desc = fmt("%s: %d element instances alive, expected %d; %s", vname(k), (int)reg.live.size(), (int)(3 * m.size()), reg.firstError.c_str()); }
+				if (vf::asan_tripped()) { ok = false; sig = "asan"; desc = fmt("ASan %s in %s", vf::asan_what().c_str(), vname(k)); }
+			}
+		}
+		if (ok && Tr<T>::counted && (reg.errors || reg.live.size())) { ok = false; sig = "diverge"; desc = fmt("%d element instances alive after dropping everything; %s", (int)reg.live.size(), reg.firstError.c_str()); }
+		if (ok && vf::asan_tripped()) { ok = false; sig = "asan"; desc = "ASan " + vf::asan_what() + " during teardown"; }
+		reg.reset();
+		return ok;
+	}
+	bool run_case(const std::string& d) {
+		std::string kase = label + ":" + (d.empty() ? std::string("-") : d);
+		std::string sig, desc; sig.reserve(64); desc.reserve(512);
+		vf::cur(kase); vf::asan_clear();
+		bool ok = true;
+		for (int attempt = 0; attempt < 2; attempt++) { // a heap delta counts as a leak only when it repeats (lazily built statics)
+			uint64_t base = vf::heap_bytes();
+			ok = once(d, sig, desc);
+			if (!ok) break;
+			if (!vf::have_asan() || vf::heap_bytes() == base) break;
+			if (attempt == 1) { ok = false; sig = "leak"; desc = fmt("allocated bytes %+lld after dropping everything", (long long)(vf::heap_bytes() - base)); }
+		}
+		if (!ok) vf::violation(sig, desc + "  input: [" + d + "]", kase);
+		vf::asan_clear();
+		return ok;
+	}
+	void run(int maxLen, int cCases) {
+		uint64_t N = count(maxLen);
+		vf::parallel(N, [&](uint64_t i) {
+			std::string d = digits(i);
+			bool sorted = true; for (size_t k = 1; k < d.size(); k++) if (d[k] < d[k - 1]) sorted = false;
+			if (!sorted) vf::add(W_SORTX_UNSORTED);
+			vf::add(cCases);
+			run_case(d);
+		}, 512);
+		vf::setinfo(label, fmt("{\"values\": %d, \"max_length\": %d, \"sequences\": %llu, \"sorts_per_sequence\": 4}", nvals, maxLen, (unsigned long long)N));
 	}
 };
 
@@ -380,7 +805,7 @@ static void runBfs(Sys& sys, const std::string& label, int depth, uint64_t maxSt
 	totS += r.states; totT += r.transitions; totTr += r.traces;
 	std::string pd;
 	for (size_t i = 0; i < r.per_depth.size(); i++) pd += fmt(i ? ",%llu" : "%llu", (unsigned long long)r.per_depth[i]);
-	vf::setinfo(label, fmt("{\"depth_completed\": %d, \"states\": %llu, \"transitions\": %llu, \"fixed_point\": %s, \"new_states_per_depth\": [%s], \"op_alphabet\": %d}", r.depth_done, (unsigned long long)r.states, (unsigned long long)r.transitions, r.fixed_point ? "true" : "false", pd.c_str(), sys.nops()));
+	vf::setinfo(label, fmt("{\"depth_completed\": %d, \"states\": %llu, \"transitions\": %llu, \"fixed_point\": %s, \"new_states_per_depth\": [%s], \"op_alphabet\": %d}", r.depth_done, (unsigned long long)r.states, (unsigned long long)r.transitions, r.fixed_point ? "true" : "false", pd.c_str(), sys.alphabet()));
 }
 
 int main(int argc, char** argv) {
@@ -389,26 +814,76 @@ int main(int argc, char** argv) {
 	W_GROW_MALLOC = vf::counter("w.reserve_growth_malloc_copy"); W_GROW_REALLOC_RESERVE = vf::counter("w.reserve_growth_realloc_over_2048B"); W_GROW_INSERT = vf::counter("w.insert_growth_realloc");
 	W_INSERT_SHIFT = vf::counter("w.insert_with_shift"); W_SHARED_OP = vf::counter("w.op_through_shared_handle"); W_ALIAS_OP = vf::counter("w.aliasing_argument_op"); W_ALIAS_GROW = vf::counter("w.aliasing_insert_at_full_capacity");
 	W_TWO_OBJECTS = vf::counter("w.states_with_two_distinct_arrays"); W_CLONE_THEN_MUT = vf::counter("w.clones_made"); W_ELEMS_DESTROYED = vf::counter("w.remove_ops");
+	W_CLEAR = vf::counter("w.clear_calls"); W_ITER = vf::counter("w.items_visited_by_rangefor_and_foreach"); W_SLICE_ENUM = vf::counter("w.slice_enumerators_walked"); W_INDEXOF_FROM = vf::counter("w.indexOf_start_offset_changes_answer");
+	W_RM1_NOTFOUND = vf::counter("w.removeOne_not_found"); W_RMIF_NONE = vf::counter("w.removeIf_removes_none"); W_RMIF_ALL = vf::counter("w.removeIf_removes_all"); W_DUP_SHARED = vf::counter("w.dup_on_shared_handle"); W_DUP_UNSHARED = vf::counter("w.dup_on_unshared_handle");
+	W_APTR_SELF = vf::counter("w.x.append_ptr_into_own_block"); W_APTR_SELF_GROW = vf::counter("w.x.append_ptr_into_own_block_beyond_capacity"); W_APTR_OTHER = vf::counter("w.x.append_ptr_other"); W_CPTR_SELF = vf::counter("w.x.copy_ptr_into_own_block");
+	W_CPTR_OTHER_GROW = vf::counter("w.x.copy_ptr_other_beyond_capacity"); W_NEW_PTR = vf::counter("w.x.array_from_ptr"); W_NEW_FILL = vf::counter("w.x.array_n_copies_of_own_element"); W_NEW_IL = vf::counter("w.x.array_from_initializer_list");
+	W_APPEND_IL = vf::counter("w.x.append_initializer_list"); W_ASSIGN_IL = vf::counter("w.x.assign_initializer_list"); W_SORT_CMP = vf::counter("w.x.comparator_sorts"); W_SORT_CMP_UNSORTED = vf::counter("w.x.comparator_sorts_of_unsorted_input");
+	W_SORTBY_DESC = vf::counter("w.x.sortBy_descending"); W_RM1_FROM_FOUND = vf::counter("w.x.removeOne_from_1_found"); W_RM1_FROM_SKIPPED = vf::counter("w.x.removeOne_from_1_skips_match_at_0");
+	W_SET_SHARED = vf::counter("w.x.element_write_through_shared_handle"); W_SET_SRC_OF_CLONE = vf::counter("w.x.element_write_to_source_of_live_clone"); W_SET_CLONE_OF_SRC = vf::counter("w.x.element_write_to_clone_of_live_source");
+	W_REMOVE_N = vf::counter("w.x.remove_i_n"); W_SLICE_MID = vf::counter("w.x.slice_inner_or_empty");
+	W_SQ_SHARED_OP = vf::counter("w.sq.stack_op_with_second_handle_sharing"); W_SQ_PUSH_FULL = vf::counter("w.sq.push_at_full_capacity"); W_SQ_ALIAS_PUSH_FULL = vf::counter("w.sq.push_top_at_full_capacity"); W_SQ_PUSH_FULL_BIG = vf::counter("w.sq.push_at_full_capacity_block_over_1KB");
+	W_SQ_PUT_FULL = vf::counter("w.sq.put_at_full_capacity"); W_SQ_ALIAS_PUT_FULL = vf::counter("w.sq.put_front_at_full_capacity"); W_SQ_POP3 = vf::counter("w.sq.pop_3"); W_SQ_COPY = vf::counter("w.sq.stack_copies");
+	W_NEST_ASSIGN_LASTREF = vf::counter("w.nest.assign_from_own_element_releasing_last_reference"); W_NEST_ASSIGN_GRAND = vf::counter("w.nest.assign_from_grandchild_releasing_last_reference"); W_NEST_APPEND_KIDS_GROW = vf::counter("w.nest.append_own_elements_array_beyond_capacity");
+	W_NEST_SHARED_KIDS = vf::counter("w.nest.states_with_shared_inner_array"); W_SORTX_UNSORTED = vf::counter("w.sort.unsorted_inputs");
 	bool T = vf::opt.thorough();
 	ArrSys<int> ai(true); ArrSys<Tracked> at(true); ArrSys<String> as(true);
-	SQSys<Tracked> sq; SQSys<String> sqs;
+	ArrSys<int> xi(true, true); ArrSys<Tracked> xt(true, true); ArrSys<String> xs(true, true);
+	ai.wRealloc = vf::counter("w.array<int>.reserve_growth_realloc_over_2048B"); at.wRealloc = vf::counter("w.array<Tracked>.reserve_growth_realloc_over_2048B"); as.wRealloc = vf::counter("w.array<String>.reserve_growth_realloc_over_2048B");
+	xi.wRealloc = vf::counter("w.arrayx<int>.reserve_growth_realloc_over_2048B"); xt.wRealloc = vf::counter("w.arrayx<Tracked>.reserve_growth_realloc_over_2048B"); xs.wRealloc = vf::counter("w.arrayx<String>.reserve_growth_realloc_over_2048B");
+	SQSys<Tracked> sq; SQSys<String> sqs; // replay of old case strings only
+	SQSys<Tracked> stt(SQSys<Tracked>::STACK_ONLY), qut(SQSys<Tracked>::QUEUE_ONLY); SQSys<String> sts(SQSys<String>::STACK_ONLY), qus(SQSys<String>::QUEUE_ONLY);
+	NestSys nest;
+	SortX<Tracked> sxt("sort<Tracked>", 5); SortX<String> sxs("sort<String>", 5); SortX<int> sxi("sort<int>", 5);
+	int cSortCases = vf::counter("sort.sequences");
 	if (vf::opt.replay) {
 		const std::string& k = vf::opt.kase;
 		bool rep = false;
+		std::string arg = k.find(':') == std::string::npos ? "" : k.substr(k.find(':') + 1);
+		if (arg == "-") arg = "";
 		vf::parallel(1, [&](uint64_t) {
 			if (k.compare(0, 10, "array<int>") == 0) rep = vf::Bfs<ArrSys<int> >(ai, "array<int>").replay(k);
 			else if (k.compare(0, 14, "array<Tracked>") == 0) rep = vf::Bfs<ArrSys<Tracked> >(at, "array<Tracked>").replay(k);
 			else if (k.compare(0, 13, "array<String>") == 0) rep = vf::Bfs<ArrSys<String> >(as, "array<String>").replay(k);
+			else if (k.compare(0, 11, "arrayx<int>") == 0) rep = vf::Bfs<ArrSys<int> >(xi, "arrayx<int>").replay(k);
+			else if (k.compare(0, 15, "arrayx<Tracked>") == 0) rep = vf::Bfs<ArrSys<Tracked> >(xt, "arrayx<Tracked>").replay(k);
+			else if (k.compare(0, 14, "arrayx<String>") == 0) rep = vf::Bfs<ArrSys<String> >(xs, "arrayx<String>").replay(k);
 			else if (k.compare(0, 15, "stackq<Tracked>") == 0) rep = vf::Bfs<SQSys<Tracked> >(sq, "stackq<Tracked>").replay(k);
 			else if (k.compare(0, 14, "stackq<String>") == 0) rep = vf::Bfs<SQSys<String> >(sqs, "stackq<String>").replay(k);
+			else if (k.compare(0, 14, "stack<Tracked>") == 0) rep = vf::Bfs<SQSys<Tracked> >(stt, "stack<Tracked>").replay(k);
+			else if (k.compare(0, 13, "stack<String>") == 0) rep = vf::Bfs<SQSys<String> >(sts, "stack<String>").replay(k);
+			else if (k.compare(0, 14, "queue<Tracked>") == 0) rep = vf::Bfs<SQSys<Tracked> >(qut, "queue<Tracked>").replay(k);
+			else if (k.compare(0, 13, "queue<String>") == 0) rep = vf::Bfs<SQSys<String> >(qus, "queue<String>").replay(k);
+			else if (k.compare(0, 4, "nest") == 0) rep = vf::Bfs<NestSys>(nest, "nest").replay(k);
+			else if (k.compare(0, 13, "sort<Tracked>") == 0) { sxt.run_case(arg); rep = !sxt.run_case(arg); }
+			else if (k.compare(0, 12, "sort<String>") == 0) { sxs.run_case(arg); rep = !sxs.run_case(arg); }
+			else if (k.compare(0, 9, "sort<int>") == 0) { sxi.run_case(arg); rep = !sxi.run_case(arg); }
 		});
 		return vf::finish();
 	}
-	runBfs(at, "array<Tracked>", T ? 7 : 6, 0);
-	runBfs(ai, "array<int>", T ? 7 : 6, 0);
-	runBfs(as, "array<String>", T ? 6 : 5, 0);
-	runBfs(sq, "stackq<Tracked>", T ? 11 : 9, 0);
-	runBfs(sqs, "stackq<String>", T ? 10 : 8, 0);
-	vf::add(cS, totS); vf::add(cT, totT); vf::add(cTr, totTr);
+	// development aid: C01_ONLY=<prefix>[,<prefix>...] runs only the systems whose label starts with a prefix (run marked non-exhaustive)
+	const char* only = getenv("C01_ONLY");
+	auto want = [&](const char* label) {
+		if (!only || !*only) return true;
+		std::string o(only), l(label);
+		for (size_t p = 0; p <= o.size();) { size_t e = o.find(',', p); if (e == std::string::npos) e = o.size(); if (e > p && l.compare(0, e - p, o, p, e - p) == 0) return true; p = e + 1; }
+		return false;
+	};
+	if (only && *only) vf::cap_hit(std::string("C01_ONLY=") + only + ": only some systems were run");
+	if (want("array<Tracked>")) runBfs(at, "array<Tracked>", T ? 7 : 6, 0);
+	if (want("array<int>")) runBfs(ai, "array<int>", T ? 7 : 6, 0);
+	if (want("array<String>")) runBfs(as, "array<String>", T ? 6 : 5, 0);
+	if (want("arrayx<Tracked>")) runBfs(xt, "arrayx<Tracked>", T ? 6 : 5, 0);
+	if (want("arrayx<String>")) runBfs(xs, "arrayx<String>", T ? 5 : 4, 0);
+	if (want("arrayx<int>")) runBfs(xi, "arrayx<int>", T ? 5 : 4, 0);
+	if (want("nest")) runBfs(nest, "nest", T ? 9 : 7, 0);
+	if (want("stack<Tracked>")) runBfs(stt, "stack<Tracked>", T ? 12 : 10, 0);
+	if (want("stack<String>")) runBfs(sts, "stack<String>", T ? 11 : 9, 0);
+	if (want("queue<Tracked>")) runBfs(qut, "queue<Tracked>", T ? 12 : 10, 0);
+	if (want("queue<String>")) runBfs(qus, "queue<String>", T ? 11 : 9, 0);
+	if (want("sort<Tracked>")) sxt.run(T ? 8 : 7, cSortCases);
+	if (want("sort<String>")) sxs.run(T ? 7 : 6, cSortCases);
+	if (want("sort<int>")) sxi.run(T ? 8 : 7, cSortCases);
+	vf::add(cS, totS); vf::add(cT, totT); vf::add(cTr, totTr + vf::get(cSortCases)); // a sort sequence is one more case run on the real code
 	return vf::finish();
 }
